@@ -1042,6 +1042,29 @@ class Interp:
                 l.arr = l.union_arr(r)
                 l.note(self)
                 return l
+        if inplace and op in ("&", "-", "^"):
+            # set.__iand__ / __isub__ / __ixor__ mutate the left operand (every alias sees it)
+            from .symcoll import SSet, SColl
+            if isinstance(l, SSet) and isinstance(r, SColl):
+                if op == "^":
+                    raise Unsupported("symbolic set ^=")
+                out = l.binop(self, op, r, False)
+                if out is NotImplemented:
+                    raise Unsupported(f"symbolic set {op}= {r!r}")
+                l.arr = out.arr
+                l.note(self)
+                return l
+        if inplace and type(l) is set and isinstance(r, (set, frozenset)) and op in ("|", "&", "-", "^") \
+                and not any(isinstance(x, SObj) for x in l) and not any(isinstance(x, SObj) for x in r):
+            if op == "|":
+                l |= r
+            elif op == "&":
+                l &= r
+            elif op == "-":
+                l -= r
+            else:
+                l ^= r
+            return l
         # symbolic ints
         if isinstance(l, (SInt, SBool)) or isinstance(r, (SInt, SBool)):
             if _intlike(l) and _intlike(r):
@@ -1108,14 +1131,20 @@ class Interp:
                     raise Unsupported("symbolic equality between set members")
                 return not isinstance(a, SObj) and not isinstance(b, SObj) and not is_symbolic(a) and not is_symbolic(b) and a == b
             inter = [a for a in L if any(eq(a, b) for b in R)]
-            if op == "&":
-                return set(inter)
-            if op == "-":
-                return {a for a in L if not any(eq(a, b) for b in R)}
             only_r = [b for b in R if not any(eq(a, b) for a in L)]
-            if op == "|":
-                return set(L) | set(only_r)
-            return {a for a in L if not any(eq(a, b) for b in R)} | set(only_r)
+            if op == "&":
+                res = set(inter)
+            elif op == "-":
+                res = {a for a in L if not any(eq(a, b) for b in R)}
+            elif op == "|":
+                res = set(L) | set(only_r)
+            else:
+                res = {a for a in L if not any(eq(a, b) for b in R)} | set(only_r)
+            if inplace and type(l) is set:
+                l.clear()
+                l.update(res)          # `s &= t` mutates s (aliases see it)
+                return l
+            return res
         if op == "+" and inplace and type(l).__name__ == "Deque" and isinstance(r, (list, tuple)):
             l.extend(r)
             return l
